@@ -303,6 +303,47 @@ def one_config(ctx, rep, cfg):
                 rep.violation("PAIRING", short + " mask" + sfx, "%s strips the tag with mask(s) %s, expected only !BITS=%d (two Arc arms)"
                               % (short, [hex(m) if isinstance(m, int) else m for m in ms], mask), f.loc())
 
+    # ---------------- who may touch the reference count
+    # Arc::from_raw materialises an owner (dropping it decrements), increment/decrement_strong_count change the count
+    # directly: outside Clone, Drop and the ManuallyDrop getters checked above no function of the crate may do either on
+    # the pointees of the tagged pointer (an `eq` that rebuilds an Arc "just to compare" frees the other handle's zone).
+    if has_alloc:
+        allowed = {"jiff::<%s as core::clone::Clone>::clone" % REPR: "increment_strong_count",
+                   "jiff::<%s as core::ops::Drop>::drop" % REPR: "decrement_strong_count"}
+        for g_ in GETTER_TAG:
+            allowed["jiff::" + REPR + "::" + g_] = "from_raw"
+        pts = {p_ for p_ in pointee.values() if p_}
+        offenders = []
+        n_ops = 0
+        for f in prog.fns.values():
+            if f.crate != "jiff":
+                continue
+            for bi, t in mir.iter_calls(f):
+                pth = t.get("path", "")
+                op = pth.rsplit("::", 1)[-1]
+                if not (pth.startswith("std::sync::Arc::<") and op in ("from_raw", "increment_strong_count", "decrement_strong_count")):
+                    continue
+                if t.get("pointee") not in pts:
+                    continue
+                n_ops += 1
+                owner = f.key
+                if f.is_closure:
+                    owner = f.key.split("::{closure")[0]
+                if allowed.get(owner) != op:
+                    offenders.append((f.key, op, t["span"]["line"]))
+        if offenders:
+            for (k_, op, ln) in offenders:
+                rep.violation("PAIRING", "refcount op outside its owner: %s %s%s" % (k_.replace("jiff::", ""), op, sfx),
+                              "Arc::%s on a pointee of the tagged pointer is called in %s: only Clone (increment), Drop (decrement) "
+                              "and the get_arc_* getters (from_raw, straight into ManuallyDrop) may touch the reference count; an "
+                              "Arc rebuilt here is dropped at the end of its scope and releases a reference that a live handle "
+                              "still owns (use after free / double free)" % (op, k_.replace("jiff::", "")), "src/tz/timezone.rs:%s" % ln)
+        else:
+            rep.ok("PAIRING", "refcount ops only in Clone/Drop/getters" + sfx, how="%d Arc::from_raw / *_strong_count calls on the pointees, all in their owners" % n_ops)
+        if n_ops < 6:
+            rep.violation("PAIRING", "refcount op census" + sfx, "expected at least 6 refcount-affecting Arc operations on the pointees "
+                          "(2 increments, 2 decrements, 2 from_raw), found %d: the matcher no longer sees them" % n_ops, "src/tz/timezone.rs")
+
     # ---------------- DISPATCH
     n_dispatch = 0
     getter_paths = {REPR + "::" + g: tags[t] for g, t in GETTER_TAG.items()}
